@@ -7,6 +7,7 @@ import (
 	"os"
 	"path/filepath"
 	"strconv"
+	"strings"
 
 	"morlockverif/checker/internal/core"
 	"morlockverif/checker/internal/rules"
@@ -18,7 +19,19 @@ func main() {
 	repo := flag.String("repo", "/repo", "repository root")
 	verif := flag.String("verif", "/verif", "verif root (evidence, known findings)")
 	list := flag.Bool("list", false, "list implemented properties")
+	debug := flag.String("debug", "", "debug: 'pkg/rel,Recv,Name' prints abstract outcomes")
 	flag.Parse()
+	if *debug != "" {
+		parts := strings.Split(*debug, ",")
+		abs, _ := filepath.Abs(*repo)
+		p, err := core.Load(core.Config{Repo: abs}, 1)
+		if err != nil {
+			fmt.Println(err)
+			os.Exit(2)
+		}
+		rules.DebugRun(p, parts[0], parts[1], parts[2])
+		return
+	}
 	if *list {
 		for _, id := range rules.IDs() {
 			fmt.Println(id)
